@@ -1,6 +1,7 @@
 // Engine C — sink simulator implementation.
 #include "simc.h"
 #include <cstring>
+#include <thread>
 #include <sstream>
 #include <functional>
 
@@ -15,7 +16,7 @@ static const char *const SKN[SK__COUNT] = {"printf(FILE*)", "writef<char>", "wri
     "u16ostream<<", "u32ostream<<", "istream>>", "wistream>>", "format_latin_1", "printf(stdout)"};
 const char *sink_name(int k) { return (k >= 0 && k < SK__COUNT) ? SKN[k] : "?"; }
 static const char *const PCN[PC__COUNT] = {"overflow_inside_padding_run", "overflow_between_surrogate_units", "eof_exactly_at_token_end", "refill_boundary_inside_multibyte_char",
-    "flush_or_overflow_inside_call", "chunk_not_self_contained_generated", "invalid_token_rejected", "skipped_char16_sink_output_contains_U+FFFF", "extraction_with_field_width"};
+    "flush_or_overflow_inside_call", "chunk_not_self_contained_generated", "invalid_token_rejected", "skipped_char16_sink_output_contains_U+FFFF", "extraction_with_field_width", "file_sink_with_stale_error_indicator", "file_sink_after_an_earlier_call_threw", "ostream_sink_with_pending_width_and_fill"};
 const char *probe_name(int i) { return (i >= 0 && i < PC__COUNT) ? PCN[i] : "?"; }
 
 // ------------------------------------------------------------------ plan text
@@ -385,14 +386,31 @@ RunResult run_plan(const Plan &p, Stats *st, std::vector<uint64_t> *nt_pairs) {
             cookie_io_functions_t io = {nullptr, cookie_write, nullptr, nullptr};
             FILE *f = fopencookie(&ck, "w", io);
             size_t bsz = std::max<uint32_t>(1, k.b); std::vector<char> ubuf(bsz);
-            int mode = (k.a % 3) == 0 ? _IONBF : (k.a % 3) == 1 ? _IOLBF : _IOFBF;
+            const unsigned bm = (k.a & 15) % 3, hist = (k.a >> 4) & 7;
+            int mode = bm == 0 ? _IONBF : bm == 1 ? _IOLBF : _IOFBF;
             setvbuf(f, mode == _IONBF ? nullptr : ubuf.data(), mode, mode == _IONBF ? 0 : bsz);
             capclass = mode == _IONBF ? 0 : bsz <= 8 ? 1 : bsz <= 64 ? 2 : 3;
             unsigned calls_inside = 0;
             FILE *saved_stdout = stdout;
             if (to_stdout) { fflush(stdout); stdout = f; }
+            // the sink's earlier history (seeded): a stale error indicator on a stream that is still perfectly writable (an attempted read on
+            // this write-only stream sets it), or an earlier call on the same FILE* that threw half-way (missing argument) and was caught
+            if (hist == 6) { (void)fgetc(f); if (st) st->probe[PC_FILE_STALE_ERROR]++; }
+            bool earlier_threw = false;
+            if (hist == 7 && !k.fault) {
+                guarded(budget, st, [&] { try { if (to_stdout) ST::printf("{>4}|{}", 7); else ST::printf(f, "{>4}|{}", 7); } catch (const std::out_of_range &) { earlier_threw = true; } });
+                fflush(f); ck.data.clear(); ck.calls = 0;
+                if (st && earlier_threw) st->probe[PC_FILE_EARLIER_CALL_THREW]++;
+            }
             Ex ex = guarded(budget, st, [&] { with_args(args, [&](const auto &...a) { if (to_stdout) ST::printf(fmt.c_str(), a...); else ST::printf(f, fmt.c_str(), a...); }); calls_inside = ck.calls; });
             if (to_stdout) stdout = saved_stdout;
+            if (earlier_threw || ex != X_NONE || (k.a >> 7) % 16 == 0) {
+                // whoever uses the FILE* next may be another thread: the stream must not be left locked by this one
+                bool free_for_others = false;
+                std::thread other([&] { if (ftrylockfile(f) == 0) { free_for_others = true; funlockfile(f); } });
+                other.join();
+                if (!free_for_others) { set_viol(V, "sink_bytes_differ", site, "the FILE* is still locked by the calling thread after ST::printf returned (or threw): the next call from any other thread blocks for ever and writes nothing"); fclose(f); break; }
+            }
             fflush(f); fclose(f);
             flushed_inside = calls_inside > 0; fault_fired = ck.failed;
             if (!accepted) break;
@@ -417,6 +435,8 @@ RunResult run_plan(const Plan &p, Stats *st, std::vector<uint64_t> *nt_pairs) {
                 RecBuf<Ch> rb(cap); rb.fail_at = k.fault;
                 std::basic_ostream<Ch> os(&rb);
                 if (k.b & 1) os.exceptions(std::ios_base::badbit);
+                // formatting state left on the stream by its owner: writef emits its output unformatted, so a pending field width or fill must not show
+                if (((k.b >> 1) & 7) == 7) { os.width(1 + (std::streamsize)(k.a % 40)); if constexpr (std::is_same_v<Ch, char> || std::is_same_v<Ch, wchar_t>) os.fill(Ch('#'));      /* (fill() needs a ctype facet, which libstdc++ lacks for char16_t / char32_t) */ os.setf((k.b & 16) ? std::ios_base::left : std::ios_base::right, std::ios_base::adjustfield); if (st) st->probe[PC_OSTREAM_PENDING_WIDTH]++; }
                 unsigned ovf_inside = 0;
                 Ex ex = guarded(budget, st, [&] { with_args(args, [&](const auto &...a) { ST::writef(os, fmt.c_str(), a...); }); ovf_inside = rb.ovf; });
                 rb.flush_area();
@@ -606,9 +626,9 @@ Plan gen_plan(uint64_t runseed) {
     for (unsigned i = 0; i < nsink; i++) {
         SinkCfg k; k.kind = (uint8_t)r.below(SK__COUNT);
         switch (k.kind) {
-        case SK_COOKIE: case SK_STDOUT: k.a = r.below(3); k.b = r.below(4) ? BUFS[r.below(10)] : 1 + r.below(4096); break;
+        case SK_COOKIE: case SK_STDOUT: k.a = r.below(3) | (r.below(8) << 4) | (r.below(16) << 7); k.b = r.below(4) ? BUFS[r.below(10)] : 1 + r.below(4096); break;
         case SK_EXT8: case SK_EXTW: k.a = r.below(16); k.b = r.below(1 << 19); if (!faults) k.b &= ~2u; break;
-        default: k.a = r.below(4) ? r.below(9) : r.below(65); k.b = r.below(2); break;
+        default: k.a = r.below(4) ? r.below(9) : r.below(65); k.b = r.below(1 << 5); break;
         }
         if (faults && r.below(2)) k.fault = 1 + r.below(r.below(3) ? 4 : 40);
         p.sinks.push_back(k);
